@@ -251,7 +251,7 @@ DECODED = {'7FFD': True, '7FFF': False, 'FFFD': False, '3FFD': True, '00FD': Tru
 
 BINDINGS = ('py+PagingTracer', 'pycmio+PagingTracer', 'c+PagingTracer', 'ccmio+PagingTracer', 'py+PagingTracer(border list)',
             'c (internal paging, no tracer)', 'ccmio (internal paging, no tracer)', 'py+skoolmacro.PagingTracer', 'c+skoolmacro.PagingTracer',
-            'py+skoolmacro.AudioTracer128')
+            'py+skoolmacro.AudioTracer128', 'py+rzxplay.RZXTracer', 'c+rzxplay.RZXTracer')
 
 
 def model_next(state, decoded, v):
@@ -314,7 +314,14 @@ class PageRig:
                 mem.convert()
             self.sim = simh.sim_class(kind)(mem, None, None, cfg)
             self.tracer = None
-            if 'no tracer' not in binding:
+            if 'RZXTracer' in binding:
+                import types
+                from skoolkit import rzxplay
+                snap = types.SimpleNamespace(border=0, out7ffd=o7ffd, outfffd=0, ay=[0] * 16, outfe=0)
+                context = types.SimpleNamespace(simulator=self.sim, snapshot=snap, frame_count=0)
+                self.tracer = rzxplay.RZXTracer(context, rzxplay.InputRecording(0, [], b''))
+                self.sim.set_tracer(self.tracer)
+            elif 'no tracer' not in binding:
                 if 'border list' in binding:
                     self.tracer = trace.Tracer(self.sim, 0, o7ffd, 0, [0] * 16, 0, True)
                 else:
@@ -325,10 +332,19 @@ class PageRig:
         # the driver program lives in bank 2 (0x8000), which never moves
         self.n_out = 0
 
-    def out(self, port, value):
-        """Execute LD A,value ; LD BC,port ; OUT (C),A from 0x8000."""
+    def out(self, port, value, method='out_c'):
+        """Write `value` to `port` with a real instruction executed from 0x8000:
+        out_c: LD A,value ; LD BC,port ; OUT (C),A
+        outi / outd / otir: (0x8200) = value ; LD HL,0x8200 ; LD BC,port+0x100 ; OUTI / OUTD / OTIR
+        (block OUTs put BC on the bus *after* decrementing B, so B is one more than the
+        port's high byte on entry - 0x80 for port 0x7FFD, 0x00 for port 0xFFFD)."""
         m = self.mem
-        prog = (0x3E, value, 0x01, port & 0xFF, port >> 8, 0xED, 0x79)
+        if method == 'out_c':
+            prog = (0x3E, value, 0x01, port & 0xFF, port >> 8, 0xED, 0x79)
+        else:
+            m[0x8200] = value
+            op = {'outi': 0xA3, 'outd': 0xAB, 'otir': 0xB3}[method]
+            prog = (0x21, 0x00, 0x82, 0x01, port & 0xFF, ((port >> 8) + 1) & 0xFF, 0xED, op)
         for i, b in enumerate(prog):
             m[self.PROG + i] = b
         self.sim.registers[25] = 1000
@@ -551,8 +567,9 @@ def history_case(binding, writes):
     rig = get_rig(binding, 0)
     state = (0, 0, False)
     out = []
-    for k, (pn, v) in enumerate(writes):
-        rig.out(PORTS[pn], v)
+    for k, w in enumerate(writes):
+        pn, v = w[0], w[1]
+        rig.out(PORTS[pn], v, w[2] if len(w) > 2 else 'out_c')
         state = model_next(state, DECODED[pn], v)
         b, r, an = rig.observe(0x21 + 0x33 * k)
         if an:
@@ -590,6 +607,22 @@ def part_c(stats, shard, nshards, tier):
                                         {'part': 'C', 'binding': binding, 'writes': [['7FFD', v1], [pn, v2]]}, '; '.join(d[:3]),
                                         tags={'part': 'C', 'binding': binding, 'port2': pn}, order=2 * 10**7 + v1 * 256 + v2)
             stats.nontriv(('C', binding, v1))
+        # block OUT instructions (port decoded after B is decremented) as the second write
+        for v1 in (0x00, 0x01, 0x07, 0x10, 0x17, 0x20, 0x27, 0x37):
+            i += 1
+            if i % nshards != shard:
+                continue
+            for method in ('outi', 'outd'):      # (OTIR/OTDR = the same write repeated with B counting down: not a single-write history)
+                for pn in second_ports:
+                    for v2 in classes:
+                        d = history_case(binding, [('7FFD', v1), (pn, v2, method)])
+                        stats.evaluations += 1
+                        stats.transitions += 2
+                        stats.counters['C_block_out_histories'] += 1
+                        if d:
+                            stats.violation('C/{}/7FFD={}/{}:{}={}'.format(binding, v1, method, pn, v2),
+                                            {'part': 'C', 'binding': binding, 'writes': [['7FFD', v1], [pn, v2, method]]}, '; '.join(d[:3]),
+                                            tags={'part': 'C', 'binding': binding, 'port2': pn, 'method': method}, order=2 * 10**7 + 10**6 + v1 * 256 + v2)
         if not quick:
             for v1, v2 in itertools.product(classes[:64], repeat=2):
                 i += 1
@@ -626,7 +659,7 @@ def run(tier, seed):
         rule='A: every opcode slot x 5 operand fillings x pointers at {3FFE,3FFF,4000,FFFF,0000,0001} (all pairs and SP; thorough: SP independently) '
              'x F in {00,FF} x 4 simulators x {48K, 128K ROM 0, 128K ROM 1} + interrupt acceptance IM 0/1/2 with SP at the edges; monitors: ROM '
              'unchanged, register ranges, cell ranges, monotone clock. B: TLC explores models/Paging128.tla; every projected edge of the dumped '
-             'graph is replayed on 10 paging bindings, source reached 3 ways. C: all two-write histories (256 x 256 on the reference bindings, 256 x '
+             'graph is replayed on 12 paging bindings, source reached 3 ways. C: all two-write histories (256 x 256 on the reference bindings, 256 x '
              'value-class elsewhere; thorough: everywhere, plus three-write histories over 64 classes) with marker stores after each write. '
              'states = distinct (machine, simulator) monitor rigs and model edges; non-trivial = distinct slots / first values',
         exhaustive=True,
@@ -634,7 +667,7 @@ def run(tier, seed):
         assumptions=['invariants preserved by every instruction from every alphabet state are invariants of programs (inductive argument); states '
                      'outside the alphabet (pointers away from the two edges) cannot reach ROM or wrap',
                      'models/Paging128.tla is the documented latch; TLC checks its invariants, the driver replays all of its edges'],
-        required_guards=['A_cases', 'A_interrupts', 'tlc_edges', 'model_edges_projected', 'C_histories'],
+        required_guards=['A_cases', 'A_interrupts', 'tlc_edges', 'model_edges_projected', 'C_histories', 'C_block_out_histories'],
         extra={'checker_cmd': 'tlc -workers 1 -noGenerateSpecTE -dump dot,actionlabels graph.dot Paging128.tla'},
     )
     return stats, meta
